@@ -1,2 +1,537 @@
-(* Proofs about Model/GoalCtx.v (C09). *)
-From VRP Require Import Base.Tac Base.TotalCmp Model.CostOrder Model.GoalCtx Proofs.CostOrderP.
+(* Proofs about Model/GoalCtx.v (C09): the order laws of every configured goal and of every goal context the code hands out
+   (main, alternatives through maybe_new / get_alternatives), the coincidence with the REPORTED fitness vector, the goals of the
+   pragmatic and scientific readers, the estimate functions. *)
+From VRP Require Import Base.Tac Base.TotalCmp Model.CostOrder Model.InsCost Model.GoalCtx Proofs.CostOrderP Proofs.InsCostP.
+
+(* ---------- layer comparators ---------- *)
+Lemma strategy_cmp_is_dominance st fa fb : strategy_cmp st fa fb = multi_cmp fa fb.
+Proof. destruct st; reflexivity. Qed.
+
+Lemma layer_cmp_refl l s : layer_cmp l s s = Eq.
+Proof. destruct l as [o|st os]; cbn [layer_cmp]; [apply single_cmp_refl|]. rewrite strategy_cmp_is_dominance. apply multi_cmp_refl. Qed.
+
+Lemma layer_cmp_antisym l sa sb : layer_cmp l sa sb = CompOpp (layer_cmp l sb sa).
+Proof.
+  destruct l as [o|st os]; cbn [layer_cmp]; [apply single_cmp_antisym|]. rewrite !strategy_cmp_is_dominance. apply multi_cmp_antisym.
+Qed.
+
+Lemma gorder_refl g s : gorder g s s = Eq.
+Proof. induction g as [|l g IH]; cbn [gorder]; [reflexivity|]. rewrite layer_cmp_refl. exact IH. Qed.
+
+Lemma gorder_antisym g sa sb : gorder g sa sb = CompOpp (gorder g sb sa).
+Proof.
+  induction g as [|l g IH]; cbn [gorder]; [reflexivity|].
+  rewrite (layer_cmp_antisym l sa sb). destruct (layer_cmp l sb sa); cbn [CompOpp]; auto.
+Qed.
+
+(* ---------- the order is a function of the reported fitness vectors, layer by layer in the reported order ---------- *)
+Definition lshape (l : glayer) : layer := match l with GSingle _ => LSingle | GMulti _ os => LMulti (length os) end.
+
+Lemma firstn_len_app {A} (l r : list A) : firstn (length l) (l ++ r) = l.
+Proof. induction l as [|a l IH]; cbn; [reflexivity|]. rewrite IH. reflexivity. Qed.
+Lemma skipn_len_app {A} (l r : list A) : skipn (length l) (l ++ r) = r.
+Proof. induction l as [|a l IH]; cbn; [reflexivity|]. exact IH. Qed.
+
+Lemma firstn_map_app {A B} (f : A -> B) os r : firstn (length os) (map f os ++ r) = map f os.
+Proof. rewrite <- (map_length f os). apply firstn_len_app. Qed.
+Lemma skipn_map_app {A B} (f : A -> B) os r : skipn (length os) (map f os ++ r) = r.
+Proof. rewrite <- (map_length f os). apply skipn_len_app. Qed.
+
+Lemma gorder_by_fitness g sa sb : gorder g sa sb = goal_cmp (map lshape g) (gfitness g sa) (gfitness g sb).
+Proof.
+  induction g as [|l g IH]; [reflexivity|].
+  unfold gfitness in *. cbn [gorder map flat_map goal_cmp].
+  destruct l as [o|st os]; cbn [lshape layer_cmp lobjs layer_width map app].
+  - unfold getd. cbn [nth skipn]. destruct (single_cmp (ofit sa o) (ofit sb o)); auto.
+  - rewrite strategy_cmp_is_dominance.
+    rewrite !firstn_map_app, !skipn_map_app.
+    destruct (multi_cmp (map (ofit sa) os) (map (ofit sb) os)); auto.
+Qed.
+
+(* the fitness vector lists the objectives of the layers in layer order; a layer contributes as many components as it has objectives *)
+Lemma gfitness_cons l g s : gfitness (l :: g) s = map (ofit s) (lobjs l) ++ gfitness g s.
+Proof. reflexivity. Qed.
+Lemma gfitness_app g1 g2 s : gfitness (g1 ++ g2) s = gfitness g1 s ++ gfitness g2 s.
+Proof. unfold gfitness. apply flat_map_app. Qed.
+Lemma gfitness_length g s : length (gfitness g s) = length (flat_map lobjs g).
+Proof.
+  induction g as [|l g IH]; [reflexivity|]. rewrite gfitness_cons. cbn [flat_map]. rewrite !app_length, map_length, IH. reflexivity.
+Qed.
+
+(* ---------- goals of single-objective layers ---------- *)
+Definition gsingle_only (g : goal) : Prop := Forall (fun l => exists o, l = GSingle o) g.
+
+Lemma gsingle_shape g : gsingle_only g -> all_single (map lshape g).
+Proof. induction 1 as [|l g [o ->] _ IH]; cbn [map lshape]; constructor; auto. Qed.
+
+Lemma gfitness_single_length g s : gsingle_only g -> length (gfitness g s) = length g.
+Proof. induction 1 as [|l g [o ->] _ IH]; [reflexivity|]. rewrite gfitness_cons. cbn. rewrite IH. reflexivity. Qed.
+
+Lemma ofit_ok s o : Forall fbits_ok s -> fbits_ok (ofit s o).
+Proof.
+  intros Hs. destruct o as [i|]; cbn [ofit]; [|unfold fbits_ok, two64; lia].
+  unfold getd. destruct (Nat.lt_ge_cases i (length s)).
+  - rewrite Forall_forall in Hs. apply Hs, nth_In; assumption.
+  - rewrite nth_overflow by assumption. unfold fbits_ok, two64; lia.
+Qed.
+
+Lemma gfitness_ok g s : Forall fbits_ok s -> Forall fbits_ok (gfitness g s).
+Proof.
+  intros Hs. induction g as [|l g IH]; [constructor|]. rewrite gfitness_cons. apply Forall_app. split; [|exact IH].
+  apply Forall_forall. intros v Hv. apply in_map_iff in Hv. destruct Hv as (o & <- & _). apply ofit_ok, Hs.
+Qed.
+
+Lemma gorder_single_is_lex g : gsingle_only g -> forall sa sb, Forall fbits_ok sa -> Forall fbits_ok sb ->
+  gorder g sa sb = lex_z (map zkey (gfitness g sa)) (map zkey (gfitness g sb)).
+Proof.
+  intros Hg sa sb Ha Hb. rewrite gorder_by_fitness.
+  apply goal_single_is_lex.
+  - apply gsingle_shape, Hg.
+  - rewrite map_length. apply gfitness_single_length, Hg.
+  - rewrite map_length. apply gfitness_single_length, Hg.
+  - apply gfitness_ok, Ha.
+  - apply gfitness_ok, Hb.
+Qed.
+
+Lemma gorder_single_trans g : gsingle_only g -> forall c sa sb sc,
+  Forall fbits_ok sa -> Forall fbits_ok sb -> Forall fbits_ok sc ->
+  gorder g sa sb = c -> gorder g sb sc = c -> gorder g sa sc = c.
+Proof.
+  intros Hg c sa sb sc Ha Hb Hc. rewrite !gorder_by_fitness.
+  apply goal_single_trans.
+  - apply gsingle_shape, Hg.
+  - rewrite map_length. apply gfitness_single_length, Hg.
+  - rewrite map_length. apply gfitness_single_length, Hg.
+  - rewrite map_length. apply gfitness_single_length, Hg.
+  - apply gfitness_ok, Ha.
+  - apply gfitness_ok, Hb.
+  - apply gfitness_ok, Hc.
+Qed.
+
+(* total: Eq-compatibility (equal solutions compare alike with every third one) *)
+Lemma lex_z_eq_compat x y z : length x = length y -> length y = length z -> lex_z x y = Eq -> lex_z x z = lex_z y z.
+Proof.
+  revert y z; induction x as [|a x IH]; intros [|b y] [|d z]; try discriminate; cbn [lex_z]; try reflexivity.
+  intros L1 L2. destruct (a ?= b) eqn:E; try discriminate. intros H.
+  rewrite (Zcompare_eq_l _ _ _ E). destruct (b ?= d); try reflexivity. apply IH; cbn in *; auto; lia.
+Qed.
+
+Lemma gorder_single_eq_compat g : gsingle_only g -> forall sa sb sc,
+  Forall fbits_ok sa -> Forall fbits_ok sb -> Forall fbits_ok sc ->
+  gorder g sa sb = Eq -> gorder g sa sc = gorder g sb sc.
+Proof.
+  intros Hg sa sb sc Ha Hb Hc. rewrite !(gorder_single_is_lex g Hg) by assumption.
+  apply lex_z_eq_compat; rewrite !map_length, !gfitness_single_length by assumption; reflexivity.
+Qed.
+
+(* ---------- multi-objective layers: what is and what is not transitive ---------- *)
+Lemma tc_le_trans x y z : total_cmp x y <> Gt -> total_cmp y z <> Gt -> total_cmp x z <> Gt.
+Proof.
+  unfold total_cmp. destruct (Z.compare_spec (key x) (key y)), (Z.compare_spec (key y) (key z)), (Z.compare_spec (key x) (key z));
+    intros; try congruence; lia.
+Qed.
+Lemma tc_lt_le_trans x y z : total_cmp x y = Lt -> total_cmp y z <> Gt -> total_cmp x z = Lt.
+Proof.
+  unfold total_cmp. destruct (Z.compare_spec (key x) (key y)), (Z.compare_spec (key y) (key z)), (Z.compare_spec (key x) (key z));
+    intros; try congruence; lia.
+Qed.
+Lemma tc_le_lt_trans x y z : total_cmp x y <> Gt -> total_cmp y z = Lt -> total_cmp x z = Lt.
+Proof.
+  unfold total_cmp. destruct (Z.compare_spec (key x) (key y)), (Z.compare_spec (key y) (key z)), (Z.compare_spec (key x) (key z));
+    intros; try congruence; lia.
+Qed.
+
+Lemma no_gt_trans a : forall b c, length a = length b -> length b = length c ->
+  ~ In Gt (map2 total_cmp a b) -> ~ In Gt (map2 total_cmp b c) -> ~ In Gt (map2 total_cmp a c).
+Proof.
+  induction a as [|x a IH]; intros [|y b] [|z c] L1 L2; try discriminate; cbn [map2 In]; [tauto|].
+  intros H1 H2 [E|I].
+  - apply (tc_le_trans x y z); [intros F; apply H1; left; exact F|intros F; apply H2; left; exact F|exact E].
+  - apply (IH b c); cbn in *; try lia; try tauto.
+Qed.
+
+Lemma some_lt_trans a : forall b c, length a = length b -> length b = length c ->
+  ~ In Gt (map2 total_cmp a b) -> ~ In Gt (map2 total_cmp b c) ->
+  In Lt (map2 total_cmp a b) \/ In Lt (map2 total_cmp b c) -> In Lt (map2 total_cmp a c).
+Proof.
+  induction a as [|x a IH]; intros [|y b] [|z c] L1 L2; try discriminate; cbn [map2 In]; [tauto|].
+  intros H1 H2 [[E|I]|[E|I]].
+  - left. apply (tc_lt_le_trans x y z); [exact E|intros F; apply H2; left; exact F].
+  - right. apply (IH b c); cbn in *; try lia; tauto.
+  - left. apply (tc_le_lt_trans x y z); [intros F; apply H1; left; exact F|exact E].
+  - right. apply (IH b c); cbn in *; try lia; tauto.
+Qed.
+
+Lemma count_c_pos c os : (0 < count_c c os)%nat <-> In c os.
+Proof.
+  unfold count_c. induction os as [|o os IH]; cbn [filter length In]; [split; [lia|tauto]|].
+  destruct o, c; cbn [length]; rewrite ?IH; split; intros; try lia; try tauto;
+    try (right; tauto); try (destruct H as [H|H]; [discriminate|tauto]).
+Qed.
+
+Lemma dominance_lt_iff os : dominance os = Lt <-> In Lt os /\ ~ In Gt os.
+Proof.
+  unfold dominance. rewrite <- !count_c_pos.
+  destruct (count_c Lt os) as [|l], (count_c Gt os) as [|g]; cbn; split; intros; try discriminate; try lia; auto;
+    try (split; lia).
+Qed.
+
+Lemma dominance_gt_iff os : dominance os = Gt <-> In Gt os /\ ~ In Lt os.
+Proof.
+  unfold dominance. rewrite <- !count_c_pos.
+  destruct (count_c Lt os) as [|l], (count_c Gt os) as [|g]; cbn; split; intros; try discriminate; try lia; auto;
+    try (split; lia).
+Qed.
+
+(* Pareto dominance is transitive, also through a tie-free "not worse" step *)
+Lemma multi_cmp_lt_trans a b c : length a = length b -> length b = length c ->
+  multi_cmp a b = Lt -> multi_cmp b c = Lt -> multi_cmp a c = Lt.
+Proof.
+  unfold multi_cmp. rewrite !dominance_lt_iff. intros L1 L2 [A1 A2] [B1 B2]. split.
+  - apply (some_lt_trans a b c); auto.
+  - apply (no_gt_trans a b c); auto.
+Qed.
+
+Lemma multi_cmp_gt_trans a b c : length a = length b -> length b = length c ->
+  multi_cmp a b = Gt -> multi_cmp b c = Gt -> multi_cmp a c = Gt.
+Proof.
+  intros L1 L2 H1 H2.
+  rewrite multi_cmp_antisym in H1, H2. rewrite multi_cmp_antisym.
+  assert (E1 : multi_cmp b a = Lt) by (destruct (multi_cmp b a); cbn in H1; congruence).
+  assert (E2 : multi_cmp c b = Lt) by (destruct (multi_cmp c b); cbn in H2; congruence).
+  rewrite (multi_cmp_lt_trans c b a); auto.
+Qed.
+
+(* a layer over ONE objective is plain total_cmp: a total order on bit patterns that keeps -0.0 below +0.0 (add_single merges them) *)
+Lemma strategy_cmp_one st a b : strategy_cmp st [a] [b] = total_cmp a b.
+Proof.
+  rewrite strategy_cmp_is_dominance. unfold multi_cmp, dominance, count_c. cbn [map2 filter].
+  destruct (total_cmp a b); reflexivity.
+Qed.
+
+Lemma multi_layer_of_one_objective_separates_zeros :
+  layer_cmp (GMulti SSum [OFeat 0]) [NEG_ZERO] [0] = Lt /\ layer_cmp (GSingle (OFeat 0)) [NEG_ZERO] [0] = Eq.
+Proof. vm_compute. auto. Qed.
+
+(* a goal with a layer of two objectives followed by another layer has a strict cycle: a < b < c < a *)
+Lemma goal_with_multi_layer_cycle :
+  let g := [GMulti SSum [OFeat 0; OFeat 1]; GSingle (OFeat 2)] in
+  let a := [1; 3; 2] in let b := [0; 5; 3] in let c := [0; 6; 1] in
+  gorder g a b = Lt /\ gorder g b c = Lt /\ gorder g c a = Lt.
+Proof. vm_compute. auto. Qed.
+
+(* ---------- goal contexts: main goal, alternatives, maybe_new, get_alternatives ---------- *)
+Lemma ctx_total_order_refl c s : ctx_total_order c s s = Eq.
+Proof. apply gorder_refl. Qed.
+Lemma ctx_total_order_antisym c sa sb : ctx_total_order c sa sb = CompOpp (ctx_total_order c sb sa).
+Proof. apply gorder_antisym. Qed.
+
+Lemma maybe_new_no_hit c d : maybe_new c false d = GOk c.
+Proof. unfold maybe_new. destruct (calts c); reflexivity. Qed.
+
+Lemma maybe_new_hit c d g : nth_error (calts c) d = Some g -> maybe_new c true d = GOk {| cgoal := g; calts := calts c |}.
+Proof.
+  intros H. unfold maybe_new, get_alternative. rewrite H. destruct (calts c) eqn:E; [destruct d; discriminate|reflexivity].
+Qed.
+
+Lemma maybe_new_hit_out_of_range c d : calts c <> [] -> (length (calts c) <= d)%nat -> maybe_new c true d = GErr E_INDEX.
+Proof.
+  intros Hne H. unfold maybe_new, get_alternative. apply nth_error_None in H. rewrite H. destruct (calts c); congruence.
+Qed.
+
+Lemma get_alternative_goal c i c' : get_alternative c i = GOk c' -> calts c' = calts c /\ nth_error (calts c) i = Some (cgoal c').
+Proof. unfold get_alternative. destruct (nth_error (calts c) i) eqn:E; intros H; inversion H; subst; cbn; auto. Qed.
+
+Lemma maybe_new_goal c hit d c' : maybe_new c hit d = GOk c' ->
+  calts c' = calts c /\ (cgoal c' = cgoal c \/ In (cgoal c') (calts c)).
+Proof.
+  unfold maybe_new. destruct (calts c) eqn:E.
+  - intros H; inversion H; subst. auto.
+  - destruct hit.
+    + intros H. apply get_alternative_goal in H. rewrite E in H. destruct H as [H1 H2]. split; [congruence|].
+      right. rewrite <- E. apply nth_error_In in H2. rewrite E. exact H2.
+    + intros H; inversion H; subst. rewrite E. auto.
+Qed.
+
+Lemma follow_goal p : forall c c', follow c p = GOk c' ->
+  calts c' = calts c /\ (cgoal c' = cgoal c \/ In (cgoal c') (calts c)).
+Proof.
+  induction p as [|[hit d] p IH]; intros c c'; cbn [follow].
+  - intros H; inversion H; subst. auto.
+  - destruct (maybe_new c hit d) as [c1|e] eqn:E; cbn [gbind]; [|discriminate].
+    intros H. apply IH in H. apply maybe_new_goal in E. destruct H as [H1 H2], E as [E1 E2].
+    split; [congruence|]. rewrite E1 in H2. destruct H2 as [H2|H2]; [|right; exact H2].
+    rewrite H2. exact E2.
+Qed.
+
+(* get_alternatives lists exactly the contexts get_alternative (hence maybe_new with a hit) hands out, in index order *)
+Lemma get_alternatives_nth c i :
+  nth_error (get_alternatives c) i = match get_alternative c i with GOk c' => Some c' | GErr _ => None end.
+Proof. unfold get_alternatives, get_alternative. rewrite nth_error_map. destruct (nth_error (calts c) i); reflexivity. Qed.
+
+Lemma get_alternatives_length c : length (get_alternatives c) = length (calts c).
+Proof. unfold get_alternatives. apply map_length. Qed.
+
+Lemma get_alternatives_goals c : map cgoal (get_alternatives c) = calts c /\ Forall (fun c' => calts c' = calts c) (get_alternatives c).
+Proof.
+  unfold get_alternatives. split.
+  - rewrite map_map. cbn. apply map_id.
+  - apply Forall_forall. intros c' H. apply in_map_iff in H. destruct H as (g & <- & _). reflexivity.
+Qed.
+
+Definition ctx_single_only (c : gctx) : Prop := gsingle_only (cgoal c) /\ Forall gsingle_only (calts c).
+
+Lemma follow_single_only c p c' : ctx_single_only c -> follow c p = GOk c' -> ctx_single_only c'.
+Proof.
+  intros [Hm Ha] H. apply follow_goal in H. destruct H as [H1 [H2|H2]]; split; rewrite ?H1, ?H2; auto.
+  rewrite Forall_forall in Ha. apply Ha, H2.
+Qed.
+
+(* every context reachable through maybe_new orders by ITS goal and reports ITS fitness: lexicographic coincidence and the
+   total-preorder laws for the alternatives as well *)
+Lemma ctx_follow_is_lex c p c' : ctx_single_only c -> follow c p = GOk c' ->
+  forall sa sb, Forall fbits_ok sa -> Forall fbits_ok sb ->
+  ctx_total_order c' sa sb = lex_z (map zkey (ctx_fitness c' sa)) (map zkey (ctx_fitness c' sb)).
+Proof.
+  intros Hc H sa sb Ha Hb. destruct (follow_single_only c p c' Hc H) as [Hm _].
+  apply gorder_single_is_lex; assumption.
+Qed.
+
+Lemma ctx_follow_trans c p c' : ctx_single_only c -> follow c p = GOk c' ->
+  forall o sa sb sc, Forall fbits_ok sa -> Forall fbits_ok sb -> Forall fbits_ok sc ->
+  ctx_total_order c' sa sb = o -> ctx_total_order c' sb sc = o -> ctx_total_order c' sa sc = o.
+Proof.
+  intros Hc H o sa sb sc Ha Hb Hcc. destruct (follow_single_only c p c' Hc H) as [Hm _].
+  apply gorder_single_trans; assumption.
+Qed.
+
+(* ---------- builders: which goals are made of single layers ---------- *)
+Lemma goal_build_ok ls g : goal_build ls = GOk g -> g = ls /\ ls <> [].
+Proof. destruct ls; cbn; intros H; inversion H; subst; split; congruence. Qed.
+
+Lemma subset_layers_single fs names : forall ls, subset_layers fs names = GOk ls -> gsingle_only ls /\ length ls = length names.
+Proof.
+  induction names as [|n ns IH]; cbn [subset_layers]; intros ls H.
+  - inversion H; subst. split; [constructor|reflexivity].
+  - destruct (find_feat fs n) as [f|]; [|discriminate]. destruct (fobj f) as [o|]; [|discriminate].
+    destruct (subset_layers fs ns) as [ls'|e]; cbn [gbind] in H; [|discriminate].
+    inversion H; subst. destruct (IH ls' eq_refl) as [I1 I2]. split; [constructor; eauto|cbn; lia].
+Qed.
+
+Lemma goal_subset_of_single fs names g : goal_subset_of fs names = GOk g -> gsingle_only g /\ length g = length names.
+Proof.
+  unfold goal_subset_of. destruct (subset_layers fs names) as [ls|e] eqn:E; cbn [gbind]; [|discriminate].
+  intros H. apply goal_build_ok in H. destruct H as [-> _]. apply subset_layers_single in E. exact E.
+Qed.
+
+Lemma goal_simple_single fs g : goal_simple fs = GOk g -> gsingle_only g.
+Proof. unfold goal_simple. intros H. apply goal_subset_of_single in H. tauto. Qed.
+
+Lemma heuristic_goal_single fs g : heuristic_goal fs = GOk g -> gsingle_only g.
+Proof. unfold heuristic_goal. destruct (obj_names fs); [discriminate|]. intros H. apply goal_subset_of_single in H. tauto. Qed.
+
+Definition builder_single_only (b : builder) : Prop :=
+  (forall g, bmain b = Some g -> gsingle_only g) /\ Forall gsingle_only (balts b).
+
+Lemma with_features_single fs b : with_features fs = GOk b -> builder_single_only b.
+Proof.
+  unfold with_features. destruct (negb (names_nodup (map fname fs))); [discriminate|].
+  destruct (goal_simple fs) as [g|e] eqn:E1; cbn [gbind]; [|discriminate].
+  destruct (heuristic_goal fs) as [h|e] eqn:E2; cbn [gbind]; [|discriminate].
+  intros H; inversion H; subst. split; cbn.
+  - intros g' Hg; inversion Hg; subst. eapply goal_simple_single; eauto.
+  - constructor; [eapply heuristic_goal_single; eauto|constructor].
+Qed.
+
+Lemma set_main_goal_single b g : builder_single_only b -> gsingle_only g -> builder_single_only (set_main_goal b g).
+Proof. intros [H1 H2] Hg. split; cbn; [intros g' E; inversion E; subst; exact Hg|exact H2]. Qed.
+
+Lemma add_alternative_goal_single b g : builder_single_only b -> gsingle_only g -> builder_single_only (add_alternative_goal b g).
+Proof. intros [H1 H2] Hg. split; cbn; [exact H1|]. apply Forall_app. split; [exact H2|constructor; [exact Hg|constructor]]. Qed.
+
+Lemma build_single b c : builder_single_only b -> build b = GOk c -> ctx_single_only c.
+Proof.
+  intros [H1 H2]. unfold build. destruct (bmain b) as [g|] eqn:E; [|discriminate].
+  intros H; inversion H; subst. split; cbn; auto.
+Qed.
+
+(* a context built by with_features alone (the default of GoalContextBuilder) *)
+Lemma default_ctx_single fs b c : with_features fs = GOk b -> build b = GOk c -> ctx_single_only c.
+Proof. intros H1 H2. eapply build_single; eauto using with_features_single. Qed.
+
+(* ---------- vrp-scientific ---------- *)
+Lemma sci_goal_context_value :
+  sci_goal_context true = GOk {| cgoal := [GSingle (OFeat 0); GSingle (OFeat 1); GSingle (OFeat 2)];
+                                 calts := [[GSingle (OFeat 0); GSingle OKnownEdge; GSingle (OFeat 1); GSingle (OFeat 2)];
+                                           [GSingle (OFeat 0); GSingle (OFeat 2)]] |} /\
+  sci_goal_context false = GOk {| cgoal := [GSingle (OFeat 0); GSingle (OFeat 2)];
+                                  calts := [[GSingle (OFeat 0); GSingle OKnownEdge; GSingle (OFeat 1); GSingle (OFeat 2)];
+                                            [GSingle (OFeat 0); GSingle (OFeat 1); GSingle (OFeat 2)]] |}.
+Proof. vm_compute. auto. Qed.
+
+Lemma sci_goal_context_single p : exists c, sci_goal_context p = GOk c /\ ctx_single_only c.
+Proof.
+  destruct sci_goal_context_value as [H1 H2].
+  destruct p; eexists; (split; [eassumption|]); split; cbn; repeat constructor; eauto.
+Qed.
+
+(* ---------- vrp-pragmatic goal_reader ---------- *)
+Lemma map_ofit_feat s k n : map (ofit s) (map OFeat (seq k n)) = map (getd s) (seq k n).
+Proof. rewrite map_map. reflexivity. Qed.
+
+(* the main goal of the reader reports the objectives in document order: component j is objective j of the state vector *)
+Lemma read_layers_fitness objs : forall k fs ls, read_layers objs k = GOk (fs, ls) ->
+  forall s, gfitness ls s = map (getd s) (seq k (length (flat_map lobjs ls))).
+Proof.
+  induction objs as [|o objs IH]; intros k fs ls H s.
+  - cbn in H. inversion H; subst. reflexivity.
+  - destruct o as [t|st inner]; cbn [read_layers] in H.
+    + destruct (read_layers objs (S k)) as [[fs' ls']|e] eqn:E; cbn [gbind] in H; [|discriminate].
+      inversion H; subst. cbn [fst snd]. rewrite gfitness_cons. cbn [lobjs map ofit flat_map app length seq].
+      rewrite (IH (S k) fs' ls' E). reflexivity.
+    + destruct (inner_tags inner) as [|t0 ts] eqn:Et; [discriminate|].
+      destruct (negb (existsb tag_has_aux (t0 :: ts))); [discriminate|].
+      destruct (negb _); [discriminate|].
+      destruct (read_layers objs (k + length (t0 :: ts))) as [[fs' ls']|e] eqn:E; cbn [gbind] in H; [|discriminate].
+      inversion H; subst. cbn [fst snd]. rewrite gfitness_cons. cbn [lobjs flat_map].
+      change (OFeat k :: map OFeat (seq (S k) (length ts))) with (map OFeat (seq k (length (t0 :: ts)))).
+      rewrite map_ofit_feat, (IH _ fs' ls' E), app_length, map_length, seq_length, seq_app, map_app. reflexivity.
+Qed.
+
+Lemma read_goal_main objs hv c : read_goal objs hv = GOk c ->
+  exists fs ls, read_layers (match objs with Some o => o | None => default_objectives hv end) 0 = GOk (fs, ls) /\ cgoal c = ls /\
+                Forall gsingle_only (calts c).
+Proof.
+  unfold read_goal. set (os := match objs with Some o => o | None => default_objectives hv end).
+  destruct (existsb has_nested os); [discriminate|].
+  destruct (read_layers os 0) as [[fs ls]|e] eqn:E; cbn [gbind]; [|discriminate].
+  destruct (with_features (fst (fs, ls) ++ [capacity_feat])) as [b|e] eqn:Eb; cbn [gbind]; [|discriminate].
+  destruct (goal_build (snd (fs, ls))) as [g|e] eqn:Eg; cbn [gbind]; [|discriminate].
+  intros H. exists fs, ls. split; [reflexivity|].
+  apply goal_build_ok in Eg. destruct Eg as [-> _]. cbn [snd] in *.
+  apply with_features_single in Eb. destruct Eb as [_ Ha].
+  unfold build, set_main_goal in H. cbn in H. inversion H; subst. cbn. auto.
+Qed.
+
+Lemma read_goal_main_fitness objs hv c : read_goal objs hv = GOk c ->
+  exists n, forall s, ctx_fitness c s = map (getd s) (seq 0 n).
+Proof.
+  intros H. apply read_goal_main in H. destruct H as (fs & ls & E & Hc & _).
+  exists (length (flat_map lobjs ls)). intros s. unfold ctx_fitness. rewrite Hc. apply (read_layers_fitness _ 0 fs ls E).
+Qed.
+
+(* documents without a multi-objective: the main goal consists of single layers *)
+Definition plain_objective (o : pobjective) : Prop := exists t, o = PObj t.
+
+Lemma read_layers_plain objs : Forall plain_objective objs -> forall k fs ls, read_layers objs k = GOk (fs, ls) -> gsingle_only ls.
+Proof.
+  induction 1 as [|o objs [t ->] _ IH]; intros k fs ls H.
+  - cbn in H. inversion H; subst. constructor.
+  - cbn [read_layers] in H. destruct (read_layers objs (S k)) as [[fs' ls']|e] eqn:E; cbn [gbind] in H; [|discriminate].
+    inversion H; subst. constructor; [eexists; reflexivity|exact (IH _ _ _ E)].
+Qed.
+
+Lemma default_objectives_plain hv : Forall plain_objective (default_objectives hv).
+Proof. destruct hv; cbn; repeat constructor; unfold plain_objective; eauto. Qed.
+
+Lemma read_goal_plain_single objs hv c :
+  Forall plain_objective (match objs with Some o => o | None => default_objectives hv end) ->
+  read_goal objs hv = GOk c -> ctx_single_only c.
+Proof.
+  intros Hp H. apply read_goal_main in H. destruct H as (fs & ls & E & Hc & Ha).
+  split; [|exact Ha]. rewrite Hc. eapply read_layers_plain; eauto.
+Qed.
+
+(* every alternative of a context of the reader consists of single layers, whatever the main goal is *)
+Lemma read_goal_alternatives_single objs hv c : read_goal objs hv = GOk c -> Forall gsingle_only (calts c).
+Proof. intros H. apply read_goal_main in H. destruct H as (_ & _ & _ & _ & Ha). exact Ha. Qed.
+
+(* ---------- estimates ---------- *)
+Lemma gestimate_length g e : forall v, gestimate g e = Some v -> length v = length g.
+Proof.
+  induction g as [|l g IH]; cbn [gestimate]; intros v H; [inversion H; reflexivity|].
+  destruct (layer_est l e); [|discriminate]. destruct (gestimate g e) as [r|]; [|discriminate].
+  inversion H; subst. cbn. rewrite (IH r eq_refl). reflexivity.
+Qed.
+
+(* for single layers the estimate has the shape of the fitness: component i is what objective i of the goal estimates *)
+Lemma gestimate_single_only g e : gsingle_only g -> gestimate g e = Some (gfitness g e).
+Proof.
+  induction 1 as [|l g [o ->] _ IH]; [reflexivity|]. cbn [gestimate layer_est]. rewrite IH. rewrite gfitness_cons.
+  destruct o; reflexivity.
+Qed.
+
+Definition weights_ok (l : glayer) : Prop :=
+  match l with GMulti (SWeightedSum ws) os => (length os <= length ws)%nat | _ => True end.
+
+Lemma layer_est_total l e : weights_ok l -> layer_est l e <> None.
+Proof.
+  destruct l as [o|[|ws] os]; cbn [layer_est strategy_est weights_ok]; try discriminate.
+  intros H. rewrite map_length. destruct (length ws <? length os)%nat eqn:E; [lia|discriminate].
+Qed.
+
+Lemma gestimate_total g e : Forall weights_ok g -> gestimate g e <> None.
+Proof.
+  induction 1 as [|l g Hl _ IH]; cbn [gestimate]; [discriminate|].
+  pose proof (layer_est_total l e Hl). destruct (layer_est l e); [|congruence]. destruct (gestimate g e); [discriminate|congruence].
+Qed.
+
+Lemma gsingle_weights_ok g : gsingle_only g -> Forall weights_ok g.
+Proof. induction 1 as [|l g [o ->] _ IH]; constructor; [exact I|exact IH]. Qed.
+
+Lemma read_layers_weights_ok objs : forall k fs ls, read_layers objs k = GOk (fs, ls) -> Forall weights_ok ls.
+Proof.
+  induction objs as [|o objs IH]; intros k fs ls H.
+  - cbn in H. inversion H; subst. constructor.
+  - destruct o as [t|st inner]; cbn [read_layers] in H.
+    + destruct (read_layers objs (S k)) as [[fs' ls']|e] eqn:E; cbn [gbind] in H; [|discriminate].
+      inversion H; subst. constructor; [exact I|eauto].
+    + destruct (inner_tags inner) as [|t0 ts] eqn:Et; [discriminate|].
+      destruct (negb (existsb tag_has_aux (t0 :: ts))); [discriminate|].
+      destruct st as [|ws].
+      * cbn [negb] in H.
+        destruct (read_layers objs (k + length (t0 :: ts))) as [[fs' ls']|e] eqn:E; cbn [gbind] in H; [|discriminate].
+        inversion H; subst. constructor; [exact I|eauto].
+      * destruct (length ws =? length (t0 :: ts))%nat eqn:Ew; cbn [negb] in H; [|discriminate].
+        destruct (read_layers objs (k + length (t0 :: ts))) as [[fs' ls']|e] eqn:E; cbn [gbind] in H; [|discriminate].
+        inversion H; subst. constructor; [|eauto].
+        change (OFeat k :: map OFeat (seq (S k) (length ts))) with (map OFeat (seq k (length (t0 :: ts)))).
+        cbn [weights_ok]. rewrite map_length, seq_length. apply Nat.eqb_eq in Ew. lia.
+Qed.
+
+(* no context handed out for a document the reader accepts can panic inside estimate (weights[idx]) *)
+Lemma read_goal_estimate_total objs hv c : read_goal objs hv = GOk c ->
+  forall p c' e, follow c p = GOk c' -> ctx_estimate c' e <> None.
+Proof.
+  intros H p c' e Hf. apply read_goal_main in H. destruct H as (fs & ls & E & Hc & Ha).
+  apply follow_goal in Hf. destruct Hf as [_ Hg]. unfold ctx_estimate. apply gestimate_total.
+  destruct Hg as [Hg|Hg].
+  - rewrite Hg, Hc. eapply read_layers_weights_ok; eauto.
+  - rewrite Forall_forall in Ha. apply gsingle_weights_ok, Ha, Hg.
+Qed.
+
+(* a `sum` layer over one objective estimates exactly what a single layer does (the f64 sum starts from -0.0) *)
+Lemma strategy_est_sum_one a : f64_ok a -> strategy_est SSum [a] = Some a.
+Proof. intros H. cbn [strategy_est]. unfold f64_sum. cbn [fold_left]. rewrite f64_negzero_add by exact H. reflexivity. Qed.
+
+(* and a `sum` layer over nothing estimates -0.0, which is below the +0.0 of a missing component *)
+Lemma strategy_est_sum_empty : strategy_est SSum [] = Some NEG_ZERO /\ icost_cmp [NEG_ZERO] [] = Lt.
+Proof. vm_compute. auto. Qed.
+
+(* a missing weight is an index panic *)
+Lemma strategy_est_missing_weight ws es : (length ws < length es)%nat -> strategy_est (SWeightedSum ws) es = None.
+Proof. intros H. cbn [strategy_est]. apply Nat.ltb_lt in H. rewrite H. reflexivity. Qed.
+
+(* ---------- non-vacuity of the hypotheses used in Properties/C09.v ---------- *)
+Lemma nonvacuous_contexts :
+  (exists c, read_goal None true = GOk c /\ ctx_single_only c) /\
+  (exists c c', read_goal (Some [PMulti (SWeightedSum [1; 2]) [IObj 0; IObj 3]; PObj 6]) false = GOk c /\
+                follow c [(true, 0%nat)] = GOk c' /\ cgoal c' <> cgoal c) /\
+  (exists g, gsingle_only g /\ g <> []) /\ Forall f64_ok [0; NEG_ZERO; F64_MAX; POS_INF; 1].
+Proof.
+  split; [|split; [|split]].
+  - eexists. split; [vm_compute; reflexivity|]. split; cbn; repeat constructor; eauto.
+  - eexists. eexists. split; [vm_compute; reflexivity|]. split; [vm_compute; reflexivity|]. cbn. discriminate.
+  - exists [GSingle OKnownEdge]. split; [repeat constructor; eauto|discriminate].
+  - repeat constructor; vm_compute; try reflexivity; intuition discriminate.
+Qed.
